@@ -11,7 +11,7 @@ from __future__ import annotations
 import io
 from typing import List, Optional
 
-from vf.api import Obligation, Skip, concretely, viol
+from vf.api import Obligation, Skip, concretely, gappy, viol
 from vf.session import load_session
 
 XSH = load_session({"THREAD_SUBPROCS": True})
@@ -139,7 +139,7 @@ def _spec_run(self, *, pipeline_group=None):
 def _install():
     global FDS
     FDS = FDTable()
-    PP.os = _OS
+    PP.os = gappy(_OS, "os")
     PP.open = _model_open
     PP.PipeChannel.from_pty = PP.PipeChannel.from_pipe
     S._safe_pipe_properties = lambda *a, **k: None
